@@ -42,25 +42,31 @@ rc::Gen<Case> bigBatch(const std::string &prop) {
     return genCase(prop, genHeader({{RENDEZVOUS, RENDEZVOUS}, {9, 13}, {0, 0}}), ops(3, 1, 6), genSched(60));
 }
 
+// deep queue: the ORDERING orchestration with 10-14 threads - a holder and 9-13 requests parked one after the other, writer-heavy so
+// that (almost) every request is a queue entry of its own: 8+ entries wait at once
+rc::Gen<Case> deepQueue(const std::string &prop, int n, int sl) {
+    return shapeCase(prop, ORDERING, 10, 14, ops(2, 3, n), sl);
+}
+
 Register r01("C01", [](Tier t) {
     int T = t == THOROUGH ? 8 : 5, n = t == THOROUGH ? 24 : 12, sl = t == THOROUGH ? 200 : 100;
     return rc::gen::weightedOneOf<Case>({{4, shapeCase("C01", FREE, 2, T, ops(3, 2, n), sl)},
                                          {4, shapeCase("C01", BATCH, 4, T, batchOps(n), sl)},
                                          {2, shapeCase("C01", READER_HEAVY, 3, T, ops(5, 1, n), sl)},
-                                         {1, shapeCase("C01", TWO_RESOURCES, 3, T, ops(3, 2, n), sl)}, {1, longCase("C01", t)}});
+                                         {1, shapeCase("C01", TWO_RESOURCES, 3, T, ops(3, 2, n), sl)}, {1, longCase("C01", t)}, {1, deepQueue("C01", n, sl)}});
 });
 Register r02("C02", [](Tier t) {
     int T = t == THOROUGH ? 8 : 5, n = t == THOROUGH ? 24 : 12, sl = t == THOROUGH ? 200 : 100;
     return rc::gen::weightedOneOf<Case>({{4, shapeCase("C02", FREE, 2, T, ops(3, 2, n), sl)},
                                          {4, shapeCase("C02", BATCH, 4, T, batchOps(n), sl)},
-                                         {2, shapeCase("C02", READER_HEAVY, 3, T, ops(5, 1, n), sl)}, {1, longCase("C02", t)}, {1, bigBatch("C02")}});
+                                         {2, shapeCase("C02", READER_HEAVY, 3, T, ops(5, 1, n), sl)}, {1, longCase("C02", t)}, {1, bigBatch("C02")}, {1, deepQueue("C02", n, sl)}});
 });
 Register r03("C03", [](Tier t) {
     int T = t == THOROUGH ? 8 : 6, n = t == THOROUGH ? 24 : 12, sl = t == THOROUGH ? 200 : 100;
     return rc::gen::weightedOneOf<Case>({{3, shapeCase("C03", FREE, 3, T, ops(3, 3, n), sl)},
                                          {2, shapeCase("C03", BATCH, 4, T, batchOps(n), sl)},
                                          {5, shapeCase("C03", ORDERING, 3, T, ops(3, 3, n), sl)},
-                                         {2, shapeCase("C03", TWO_RESOURCES, 3, T, ops(3, 2, n), sl)}});
+                                         {2, shapeCase("C03", TWO_RESOURCES, 3, T, ops(3, 2, n), sl)}, {1, deepQueue("C03", n, sl)}});
 });
 Register r12("C12", [](Tier t) {
     int T = t == THOROUGH ? 8 : 6, n = t == THOROUGH ? 24 : 12, sl = t == THOROUGH ? 200 : 100;
